@@ -429,7 +429,7 @@ def finish(pid, tier, seed, t0, cfg, names, discharged, evaluations, stats, cras
     cov = {
         "obligations": max(len(names), 1) if names else 0,
         "discharged": len(discharged),
-        "checker_cmd": "cd /verif/lean && lake build NetflowModel.Props.%s && lake env lean <#print axioms audit>" % pid,
+        "checker_cmd": "cd /verif/lean && lake build %s && lake env lean <#print axioms audit>" % " ".join("NetflowModel.Props." + m for m in prop_modules(pid)),
         "trusted_base": TRUSTED_BASE,
         "theorems": names,
         "axioms": axioms,
